@@ -91,6 +91,8 @@ enum FsRes {
     Open(Option<u64>, u32, Option<u32>),
     Create(Vec<u64>, Option<u64>, u32, Option<u32>),
     Read(Vec<u8>),
+    // the filesystem pushes these bytes into the data writer and THEN fails with this errno: the reply must be the error
+    ReadErr(i32, Vec<u8>),
     Statfs(Vec<u64>),
     Lock(Vec<u64>),
     Dirents(Vec<(u64, u64, u32, Vec<u8>, Vec<u64>)>),
@@ -128,6 +130,7 @@ fn parse_fs(s: &str) -> FsRes {
             FsRes::Create(e, opt64(p[22]), p[23].parse().unwrap(), opt64(p[24]).map(|x| x as u32))
         }
         "read" => FsRes::Read(unhex(rest)),
+        "readerr" => { let (en, d) = rest.split_once(':').unwrap(); FsRes::ReadErr(en.parse().unwrap(), unhex(d)) }
         "statfs" => FsRes::Statfs(nums(rest)),
         "lock" => FsRes::Lock(nums(rest)),
         "dirents" => {
@@ -162,6 +165,37 @@ fn kind_of(k: u32) -> io::ErrorKind {
         6 => io::ErrorKind::Other,
         7 => io::ErrorKind::TimedOut,
         8 => io::ErrorKind::UnexpectedEof,
+        9 => io::ErrorKind::WriteZero,
+        // codes 10.. = every other stable ErrorKind, in the order of translator/server_dispatch.py KIND_EXT
+        10 => io::ErrorKind::ConnectionRefused,
+        11 => io::ErrorKind::ConnectionReset,
+        12 => io::ErrorKind::ConnectionAborted,
+        13 => io::ErrorKind::NotConnected,
+        14 => io::ErrorKind::AddrInUse,
+        15 => io::ErrorKind::AddrNotAvailable,
+        16 => io::ErrorKind::BrokenPipe,
+        17 => io::ErrorKind::InvalidInput,
+        18 => io::ErrorKind::Unsupported,
+        19 => io::ErrorKind::OutOfMemory,
+        20 => io::ErrorKind::HostUnreachable,
+        21 => io::ErrorKind::NetworkUnreachable,
+        22 => io::ErrorKind::NetworkDown,
+        23 => io::ErrorKind::NotADirectory,
+        24 => io::ErrorKind::IsADirectory,
+        25 => io::ErrorKind::DirectoryNotEmpty,
+        26 => io::ErrorKind::ReadOnlyFilesystem,
+        27 => io::ErrorKind::StaleNetworkFileHandle,
+        28 => io::ErrorKind::StorageFull,
+        29 => io::ErrorKind::NotSeekable,
+        30 => io::ErrorKind::QuotaExceeded,
+        31 => io::ErrorKind::FileTooLarge,
+        32 => io::ErrorKind::ResourceBusy,
+        33 => io::ErrorKind::ExecutableFileBusy,
+        34 => io::ErrorKind::Deadlock,
+        35 => io::ErrorKind::CrossesDevices,
+        36 => io::ErrorKind::TooManyLinks,
+        37 => io::ErrorKind::InvalidFilename,
+        38 => io::ErrorKind::ArgumentListTooLong,
         _ => io::ErrorKind::WriteZero,
     }
 }
@@ -361,6 +395,10 @@ impl FileSystem for ScriptFs {
             FsRes::Read(d) => {
                 if !d.is_empty() { w.write_all(d)?; }
                 Ok(d.len())
+            }
+            FsRes::ReadErr(en, d) => {
+                if !d.is_empty() { w.write_all(d)?; }
+                Err(io::Error::from_raw_os_error(*en))
             }
             _ => Err(self.err().unwrap()),
         }
@@ -583,6 +621,10 @@ impl AsyncFileSystem for ScriptFs {
             FsRes::Read(d) => {
                 if !d.is_empty() { w.write_all(d)?; }
                 Ok(d.len())
+            }
+            FsRes::ReadErr(en, d) => {
+                if !d.is_empty() { w.write_all(d)?; }
+                Err(io::Error::from_raw_os_error(*en))
             }
             _ => Err(self.err().unwrap()),
         }
